@@ -36,8 +36,10 @@ ASSUMPTIONS = [
     'exactness band on reference elements: pass <= 1e-12, violation > 1e-10 (tables carry 15-16 digits); values elsewhere use the 1e-9/1e-5 policy',
     'locate targets are strictly interior points of affine elements (barycentric >= 0.08); located coordinates are compared at 1e-8',
 ]
-BUDGET_S = {'quick': 100, 'thorough': 1380}
-NCASES = {'quick': 800, 'thorough': 16000}
+import os as _os
+_SCALE = float(_os.environ.get('VERIF_C09_BUDGET_SCALE', '1') or 1)     # >1 only to finish the same workload on an oversubscribed machine
+BUDGET_S = {'quick': int(100 * _SCALE), 'thorough': int(1380 * _SCALE)}
+NCASES = {'quick': 800, 'thorough': 12000}
 CHUNK = 25
 MINFRAC = .3      # fewer sample cases than this fraction of NCASES before the deadline: inconclusive
 VTK_FINDING = 'C09-vtk-tensor-typeerror'
